@@ -1004,6 +1004,37 @@ func (fr *Frame) evalCall(x *ECall, env *evalEnv) (Value, error) {
 		}
 		return fr.toSeq(v, env)
 	}
+	// macro
+	if m, ok := r.eng.specs.Macros[x.Fn]; ok {
+		if len(x.Args) != len(m.Params) {
+			return nil, fmt.Errorf("%s expects %d arguments", x.Fn, len(m.Params))
+		}
+		vals := make([]Value, len(m.Params))
+		for i := range m.Params {
+			v, err := arg(i)
+			if err != nil {
+				return nil, err
+			}
+			vals[i] = v
+		}
+		saved := env.names
+		nn := map[string]Value{}
+		for k, v := range saved {
+			nn[k] = v
+		}
+		for i, p := range m.Params {
+			nn[p] = vals[i]
+		}
+		env.names = nn
+		savedLets := env.lets
+		v, err := fr.evalExpr(m.Body, env)
+		env.names = saved
+		env.lets = savedLets
+		if err != nil {
+			return nil, fmt.Errorf("in %s: %v", x.Fn, err)
+		}
+		return v, nil
+	}
 	// ghost component
 	if g, ok := r.eng.specs.Ghosts[x.Fn]; ok {
 		v, err := arg(0)
